@@ -11,6 +11,8 @@
 (* Acc step per (n, nn) iteration - the history is carried here, not in    *)
 (* Python), then Finish decides the discrete observables (Why names the    *)
 (* failing clause) and prints the expected correlation as terms.           *)
+(* Records with more than 24 frames start in the terminal loop state       *)
+(* stated from the definition (no per-iteration states).                   *)
 (***************************************************************************)
 EXTENDS TimeCorr, TLC, Json, IOUtils
 
@@ -35,8 +37,13 @@ Expected(rec, state) ==
     tT   |-> [k \in 1..rec.T |-> TimeTerm(Ser(rec), k - 1, rec.dt[1], rec.dt[2])],
     corr |-> [k \in 1..rec.T |-> Div(Q(state.acc[k], state.counts[k]), Q(state.acc[1], state.counts[1]))] ]
 
+\* long series (T (T + 1) / 2 loop steps are too many to enumerate one TLC state each): the terminal loop state
+\* is stated directly from the definition (TimeCorr!StDirect) and Finish follows at once
+LongRec(rec) == rec.T > 24
+StStart(rec) == IF LongRec(rec) THEN StDirect(Ser(rec)) ELSE StInit(Ser(rec))
+
 Init == /\ l = 1 /\ bad = ""
-        /\ st = IF Len(Tr) >= 1 THEN StInit(Ser(Tr[1])) ELSE [done |-> TRUE]
+        /\ st = IF Len(Tr) >= 1 THEN StStart(Tr[1]) ELSE [done |-> TRUE]
 Acc == /\ l <= Len(Tr) /\ bad = "" /\ ~st.done
        /\ st' = StAcc(Ser(Tr[l]), st)
        /\ UNCHANGED <<l, bad>>
@@ -45,14 +52,14 @@ Finish == /\ l <= Len(Tr) /\ bad = "" /\ st.done
              IF w = ""
              THEN /\ PrintT(ToJson(Expected(Tr[l], st)))
                   /\ l' = l + 1 /\ bad' = ""
-                  /\ st' = IF l + 1 <= Len(Tr) THEN StInit(Ser(Tr[l + 1])) ELSE st
+                  /\ st' = IF l + 1 <= Len(Tr) THEN StStart(Tr[l + 1]) ELSE st
              ELSE /\ bad' = w /\ UNCHANGED <<l, st>>
 Next == Acc \/ Finish
 Spec == Init /\ [][Next]_vars
 
 Accepted == bad = ""
 \* model-level: the loop state the trace spec carried equals the definition
-TraceAlgDef == (l <= Len(Tr) /\ st.done) =>
+TraceAlgDef == (l <= Len(Tr) /\ st.done /\ ~LongRec(Tr[l])) =>
                   /\ AlgorithmEqualsDefinition(Ser(Tr[l]), st)
                   /\ CountsPerLag(Ser(Tr[l]), st)
                   /\ PairsAreDefinition(Ser(Tr[l]), st)
